@@ -22,7 +22,7 @@ from typing import Dict, FrozenSet, Iterable, List, Optional, Set, Tuple
 
 from .calls import Calls, Target
 from .cfg import CFG, Node, cfg_of
-from .model import (AnalysisError, ClassInfo, EnumMember, FuncInfo, Program, UNKNOWN, is_self_attr, norm,
+from .model import (accessor_value, AnalysisError, ClassInfo, EnumMember, FuncInfo, Program, UNKNOWN, is_self_attr, norm,
                     strip_cast, unparse, walk_shallow)
 
 Atom = Tuple
@@ -131,23 +131,7 @@ class Canon:
             return None
         if len(f.params) != 1:
             return None
-        body = [s for s in f.node.body
-                if not (isinstance(s, ast.Expr) and isinstance(s.value, ast.Constant) and isinstance(s.value.value, str))]
-        # ``if self._x is None: return None`` + ``return self._x.Y``  (StateMachine.state)
-        if (len(body) == 2 and isinstance(body[0], ast.If) and isinstance(body[1], ast.Return)
-                and len(body[0].body) == 1 and isinstance(body[0].body[0], ast.Return) and not body[0].orelse
-                and isinstance(body[0].body[0].value, ast.Constant) and body[0].body[0].value.value is None
-                and isinstance(body[0].test, ast.Compare) and isinstance(body[0].test.ops[0], ast.Is)):
-            body = [body[1]]
-        if len(body) != 1 or not isinstance(body[0], ast.Return) or body[0].value is None:
-            return None
-        v = body[0].value
-        for n in ast.walk(v):
-            if isinstance(n, ast.Name) and n.id not in ('self', 'None', 'True', 'False'):
-                return None
-            if isinstance(n, (ast.Call,)) and (n.args or n.keywords):
-                return None
-        return v
+        return accessor_value(f)
 
     def key(self, e: ast.expr) -> str:
         return norm(self.expr(e))
